@@ -132,6 +132,52 @@ def run(args, rep):
         if sym[0] in ('retnone', 'retbare', 'retval', 'nl_zq'):
             text = 'def f():\n' + '\n'.join('    ' + l for l in text.split('\n'))
         family.append(('shared:stmt:%s' % '.'.join(sym), 'xflag = zq = 1\n%s\nprint(len(dir()))\n' % text))
+    # the enumerated two-name scope programs in which one statement declares both names (`global xx, yy`): bindings created together, equal mention counts -
+    # whatever orders them (creation order, a set, a dict) decides which gets the shorter name
+    from .. import scopegen
+    p22, _ = tlc.cached_export('Rename', 'Export_Rename_2x2.cfg')
+    both = [p for p in p22 if any('gdecl' in u.get('x', []) and 'gdecl' in u.get('y', []) for u in p['uses'])]
+    scope_family = []
+    for k, p in enumerate(both if args.tier != 'quick' else both[::4]):
+        try:
+            src = scopegen.Conc(p, variant=0).src
+            compile(src, 's', 'exec')
+        except SyntaxError:
+            continue
+        scope_family.append(('scope:%d' % k, src))
+    # every syntactic LIST OF NAMES with several names of equal weight (same number of mentions): if anything but the written order decides which binding is
+    # processed first, the assignment of short names follows the hash seed
+    for k in (2, 4, 6):
+        names = ['alpha', 'bravo', 'gamma', 'delta', 'eagle', 'fruit'][:k]
+        L = ', '.join(names)
+        total = ' + '.join(names)
+        assigns = '\n'.join('    %s = %d' % (n, i) for i, n in enumerate(names))
+        lists = {
+            'global': 'def setup():\n    global %s\n%s\ndef total():\n    return %s\n' % (L, assigns, total),
+            'global-read': 'def total():\n    global %s\n    return %s\n%s\n' % (L, total, assigns.replace('    ', '')),
+            'nonlocal': 'def outer():\n%s\n    def inner():\n        nonlocal %s\n%s\n    inner()\n    return %s\n' % (assigns, L, assigns.replace('    ', '        '), total),
+            'tuple-target': '%s = range(%d)\nprint(%s)\n' % (L, k, total),
+            'params': 'def f(%s):\n    return %s\nprint(f(%s))\n' % (L, total, ', '.join('1' * k)),
+            'kwonly': 'def f(*, %s):\n    return %s\n' % (L, total),
+            'lambda': 'f = lambda %s: %s\n' % (L, total),
+            'for-target': 'def f(rows):\n    for %s in rows:\n        yield %s\n' % (L, total),
+            'with-as': 'def f(c):\n    with %s:\n        return %s\n' % (', '.join('c as %s' % n for n in names), total),
+            'del': 'def f():\n%s\n    print(%s)\n    del %s\n' % (assigns, total, L),
+            'import': 'def f():\n    import %s\n    return %s\n' % (L, total),
+            'from-import': 'def f():\n    from m import %s\n    return %s\n' % (L, total),
+            'set-display': '%s\nprint({%s})\n' % (assigns.replace('    ', ''), L),
+            'class-bases': '%s\nclass K(%s): pass\n' % ('\n'.join('class %s: pass' % n for n in names), L),
+            'except-tuple': '%s\ntry:\n    pass\nexcept (%s):\n    pass\n' % ('\n'.join('class %s(Exception): pass' % n for n in names), L),
+            'comprehension': 'print([%s for %s in [range(%d)]])\n' % (total, L, k),
+            'match-seq': 'def f(s):\n    match s:\n        case [%s]:\n            return %s\n' % (L, total),
+            'walrus': 'def f():\n    return [%s], %s\n' % (', '.join('(%s := %d)' % (n, i) for i, n in enumerate(names)), total),
+        }
+        for kind, text in sorted(lists.items()):
+            try:
+                compile(text, 's', 'exec')
+            except SyntaxError:
+                continue
+            scope_family.append(('scope:names-%s-%d' % (kind, k), text))
     versions = ['3.12', '3.11', '2.7'] if args.tier == 'quick' else [v for v in ('3.12', '3.11', '3.13', '3.8', '3.6', '2.7') if v in available_versions()]
     versions = [v for v in versions if v in available_versions()]
     for v in versions:
@@ -140,7 +186,7 @@ def run(args, rep):
             base = [(p, b) for p, b in f2]
         else:
             base = srcs
-        base = base + inputs.shapes(v) + ([(n, t.encode()) for n, t in family] if v != '2.7' else [])
+        base = base + inputs.shapes(v) + ([(n, t.encode()) for n, t in family + scope_family] if v != '2.7' else [])
         rq = [{'op': 'minify', 'id': p, 'src_b64': inputs.b64(b), 'as_bytes': True, 'opts': {'rename_globals': True}} for p, b in base]
         # two long histories in one process each - every request in one order and in the reverse order, so that for every ordered pair (A, B)
         # one of them runs A some time before B ...
